@@ -363,6 +363,7 @@ func DelStaleCheckpoint(cli client.Redis, checkpointName string, runId string, b
 
 	before := time.Now().Add(-1 * beforeNow).UnixNano()
 	newest := int64(-2)
+	newestMtime := int64(0)
 	var newestDb int32
 	cpis := []*CheckpointInfo{}
 	dbs := []int32{}
@@ -371,8 +372,10 @@ func DelStaleCheckpoint(cli client.Redis, checkpointName string, runId string, b
 		if err != nil {
 			return 0, 0, err
 		}
-		if cpi.Offset > newest {
+		// same rule as GetCheckpoint: among equal offsets the most recently written wins
+		if cpi.Offset > newest || (cpi.Offset == newest && cpi.Mtime > newestMtime) {
 			newest = cpi.Offset
+			newestMtime = cpi.Mtime
 			newestDb = db
 		}
 		if cpi.Offset > 0 {
